@@ -105,6 +105,7 @@ func TestVerifProber(t *testing.T) {
 	t4([]string{"gfet4t7; dur=9223372036855"}, nil) // known finding K5: the millisecond value overflows time.Duration
 	t4([]string{"gfet4t7; dur= 5"}, nil)
 	t4([]string{"gfet4t7;dur=5", "x"}, []string{"gfet4t7; dur=1"})
+	t4([]string{"cdn; dur=1", "other"}, []string{"gfet4t7; dur=7"}) // the header has values but no entry: the trailer is not consulted
 	for _, pt := range []string{"noop", "stale_read", "strong_query", "stale_query", "dml", "read_write", "", "NOOP", "noop ", "x"} {
 		_, err := ParseProbeType(pt)
 		r := "ok"
@@ -144,12 +145,20 @@ func TestVerifProber(t *testing.T) {
 		if rng.Intn(6) == 0 {
 			alpha += "/ !+"
 		}
+		if rng.Intn(8) == 0 { // whole values that a path cleaner would treat specially
+			return []string{"..", ".", "", "...", "a..b", "..a", "a/../b", "./a"}[rng.Intn(8)]
+		}
 		b := []byte{}
 		for i := rng.Intn(8); i > 0; i-- {
 			b = append(b, alpha[rng.Intn(len(alpha))])
 		}
 		return string(b)
 	}
+	type heldPayload struct {
+		n     int
+		pl, h []byte
+	}
+	var heldPayloads []heldPayload
 	for ep := 0; ep < episodes; ep++ {
 		// backoff: base <= max mostly, consecutive retry counts (monotonicity), values around 2^53 excluded
 		base := rng.Int63n(1 << uint(1+rng.Intn(52)))
@@ -181,6 +190,9 @@ func TestVerifProber(t *testing.T) {
 		fmt.Fprintf(w, "pb interval qps=%d => %d\n", math.Float64bits(q), int64(p.probeInterval()))
 		if ep%10 == 0 {
 			size := rng.Intn(5000)
+			if rng.Intn(3) == 0 {
+				size = rng.Intn(64) // small payloads, several held at once
+			}
 			pl, h, err := generatePayload(size)
 			sum := sha256.Sum256(pl)
 			ok := "ok"
@@ -188,6 +200,20 @@ func TestVerifProber(t *testing.T) {
 				ok = "bad"
 			}
 			fmt.Fprintf(w, "pb payload n=%d => len=%d hash=%s\n", size, len(pl), ok)
+			// a payload and its hash stay a pair: look again at the pairs handed out earlier (a probe keeps them
+			// until its transaction, possibly retried, is over)
+			for _, old := range heldPayloads {
+				s2 := sha256.Sum256(old.pl)
+				ok2 := "ok"
+				if len(old.pl) != old.n || !bytes.Equal(s2[:], old.h) {
+					ok2 = "bad"
+				}
+				fmt.Fprintf(w, "pb payload n=%d later=1 => len=%d hash=%s\n", old.n, len(old.pl), ok2)
+			}
+			heldPayloads = append(heldPayloads, heldPayload{size, pl, h})
+			if len(heldPayloads) > 3 {
+				heldPayloads = heldPayloads[1:]
+			}
 		}
 	}
 }
